@@ -3,4 +3,9 @@
 int id;
 void set_id(int i) { id = i; set_heart_beat(1); }
 void off() { set_heart_beat(0); L("hboff " + ME); }
-void heart_beat() { L("hb " + id); TP("heart_beat", id); if (!id) "/c09/rs"->touch(); }
+void heart_beat() {
+  L("hb " + id);
+  TP("heart_beat", id);
+  if (!id) "/c09/rs"->touch();
+  if (id == 1 && PLAN->query_st() == 2) set_heart_beat(0);   // self-test only: a broken mudlib the model does not know about
+}
